@@ -36,6 +36,7 @@ struct ExecCfg {
     uint64_t op_budget = 400000000ULL;
     int dense_limit = 320;
     bool yield_at_ops = false;     // multi-task: operation boundaries are scheduling points
+    bool bridge_model = false;     // C20: keep the C simple driver's factors of the same matrix as reference model of every handle
 };
 
 struct OpResult {
@@ -44,7 +45,7 @@ struct OpResult {
     Snapshot snap;
     std::vector<std::string> violations; // "oracle|detail"
     uint64_t steps = 0; int expansions = -1; int growth_reqs = 0, growth_failed = 0;
-    bool permr_changed = false; bool f2_bit_equal = false;
+    bool permr_changed = false; bool f2_bit_equal = false; int bridge_bit_equal = -1;
     long double ident_ratio = 0, resid_ratio = 0; bool overflow_skipped = false;
     std::vector<GrowthEvent> growth_log;
     long query_estimate = 0;
@@ -100,7 +101,8 @@ template <class K> struct Slot {
     double last_thresh = 1.0;
 };
 
-struct BridgeHandle { bool live = false; bool valid = false; fptr f = 0; int n = 0; int slotmat = 0; std::vector<int_t> rowind1, colptr1; void *values = nullptr; };
+struct BridgeHandle { bool live = false; bool valid = false; fptr f = 0; int n = 0; int slotmat = 0; std::vector<int_t> rowind1, colptr1; void *values = nullptr;
+                      bool model = false; SuperMatrix mA, mL, mU; int *mpc = nullptr, *mpr = nullptr; };
 
 template <class K> struct World {
     typedef typename K::scalar S; typedef typename K::real R;
@@ -779,6 +781,22 @@ template <class K> struct World {
             if (memcmp(v0.data(), vals, sizeof(S) * M.nnz()) != 0 || r0 != h.rowind1 || c0 != h.colptr1) viol(r, "bridge-mutates", "factor request changed the caller's 1-based matrix arrays");
             if (h.f == 0) viol(r, "bridge-handle", "factor request returned a null handle");
             if (cfg.capture) { r.snap.val("info", r.info); }
+            if (r.info != 0 && cfg.bridge_model) viol(r, "bridge-factor-info", "factor request returned info " + std::to_string(r.info) + " for a nonsingular matrix");
+            if (cfg.bridge_model && r.info == 0) {
+                // reference model: the C simple driver on the same matrix (0-based copy, default options, same tunings)
+                S *mv = cmalloc<S>(M.nnz()); int_t *mi = cmalloc<int_t>(M.nnz()); int_t *mp = cmalloc<int_t>(M.n + 1);
+                for (int k = 0; k < M.nnz(); k++) { mv[k] = ScalarOps<S>::make(M.re[k], M.im[k]); mi[k] = M.rowind[k]; }
+                for (int j = 0; j <= M.n; j++) mp[j] = M.colptr[j];
+                K::Create_CompCol_Matrix(&h.mA, M.n, M.n, (int_t)M.nnz(), mv, mi, mp, SLU_NC, K::dtype, SLU_GE);
+                h.mpc = cmalloc<int>(M.n); h.mpr = cmalloc<int>(M.n);
+                superlu_options_t opt; set_default_options(&opt); opt.PrintStat = NO;
+                SuperMatrix B0; S *b0 = cmalloc<S>(M.n); K::Create_Dense_Matrix(&B0, M.n, 0, b0, M.n, SLU_DN, K::dtype, SLU_GE);
+                SuperLUStat_t st; StatInit(&st); int_t minfo = -1;
+                K::gssv(&opt, &h.mA, h.mpc, h.mpr, &h.mL, &h.mU, &B0, &st, &minfo);
+                StatFree(&st); Destroy_SuperMatrix_Store(&B0); rt_caller_free(b0);
+                if (minfo == 0) h.model = true;
+                else { if (minfo > 0 && minfo <= M.n) { Destroy_SuperNode_Matrix(&h.mL); Destroy_CompCol_Matrix(&h.mU); } Destroy_CompCol_Matrix(&h.mA); rt_caller_free(h.mpc); rt_caller_free(h.mpr); h.mpc = h.mpr = nullptr; }
+            }
         } else if (o.kind == "bsolve") {
             if (!h.live || !h.valid) { r.skipped = true; r.skip_reason = "handle not live or factorization reported info != 0"; return; }
             int n = h.n; a.iopt = 2; a.n = n; a.nnz = 0; a.nrhs = o.nrhs; a.ldb = n + o.ldpad;
@@ -793,8 +811,25 @@ template <class K> struct World {
             if (r.info != 0) viol(r, "bridge-solve-info", "solve request returned info " + std::to_string(r.info));
             if (!padding_intact(n, a.nrhs, a.ldb, b)) viol(r, "padding", "rows of b beyond n were written");
             if (cfg.capture) { std::vector<S> xs((size_t)n * a.nrhs); for (int j = 0; j < a.nrhs; j++) memcpy(&xs[(size_t)j * n], &b[(size_t)j * a.ldb], n * sizeof(S)); r.snap.val("info", r.info); r.snap.add("X", xs.data(), xs.size() * sizeof(S)); }
-            // residual against the caller's matrix with the plain backward-stable bound is evaluated by the C20 workload (needs the model's factors)
-            bridge_last_b.assign((unsigned char *)b_in.data(), (unsigned char *)(b_in.data() + b_in.size()));
+            if (h.model && a.nrhs > 0) {
+                // what the C simple driver would return for the same right-hand sides
+                S *xm = cmalloc<S>((size_t)a.ldb * a.nrhs); memcpy(xm, b_in.data(), sizeof(S) * (size_t)a.ldb * a.nrhs);
+                SuperMatrix Bm; K::Create_Dense_Matrix(&Bm, n, a.nrhs, xm, a.ldb, SLU_DN, K::dtype, SLU_GE);
+                SuperLUStat_t st; StatInit(&st); int minfo = -1;
+                K::gstrs(NOTRANS, &h.mL, &h.mU, h.mpc, h.mpr, &Bm, &st, &minfo);
+                StatFree(&st);
+                r.bridge_bit_equal = memcmp(xm, b, sizeof(S) * (size_t)a.ldb * a.nrhs) == 0 ? 1 : 0;
+                std::vector<cx> Ad; int am, an; dense_A<K>(&h.mA, Ad, am, an);
+                std::vector<cx> Ld, Ud; dense_LU<K>(&h.mL, &h.mU, n, n, Ld, Ud);
+                std::vector<cx> Xh((size_t)n * a.nrhs), Bh((size_t)n * a.nrhs);
+                for (int j = 0; j < a.nrhs; j++) for (int i = 0; i < n; i++) {
+                    S xv = b[i + (size_t)j * a.ldb], bv = b_in[i + (size_t)j * a.ldb];
+                    Xh[i + (size_t)j * n] = cx((ld)ScalarOps<S>::re(xv), (ld)ScalarOps<S>::im(xv)); Bh[i + (size_t)j * n] = cx((ld)ScalarOps<S>::re(bv), (ld)ScalarOps<S>::im(bv));
+                }
+                if (overflow_plausible<K>(Ld, Ud, Ad) || overflow_plausible<K>(Xh, Bh, std::vector<cx>())) r.overflow_skipped = true;
+                else { long double mr = 0; std::string e = check_residual<K>(Ad, n, Ld, Ud, h.mpr, h.mpc, 0, Xh, Bh, a.nrhs, nullptr, &mr); r.resid_ratio = mr; if (!e.empty()) viol(r, "bridge-residual", e); }
+                Destroy_SuperMatrix_Store(&Bm); rt_caller_free(xm);
+            }
             free(b);
         } else { // bfree
             if (!h.live) { r.skipped = true; r.skip_reason = "handle not live"; return; }
@@ -805,9 +840,9 @@ template <class K> struct World {
             r.steps = ctx->steps - steps0; r.escaped = esc;
             if (esc) { r.cls = esc == ESC_ABORT ? XC_ABORT : XC_HANG; dead = true; viol(r, esc == ESC_ABORT ? "abort" : "hang", ctx->abort_msg); return; }
             free(h.values); h.values = nullptr; h.live = false; h.f = 0; r.cls = XC_OK;
+            if (h.model) { Destroy_SuperNode_Matrix(&h.mL); Destroy_CompCol_Matrix(&h.mU); Destroy_CompCol_Matrix(&h.mA); rt_caller_free(h.mpc); rt_caller_free(h.mpr); h.mpc = h.mpr = nullptr; h.model = false; }
         }
     }
-    std::vector<unsigned char> bridge_last_b;
 
     void run_op(const Op &o) {
         trace.emplace_back();
